@@ -559,6 +559,66 @@ def search(ctx, case, types, every, root_dir, clean_out, lctx, built, own_paths)
     return dry
 
 
+def search_history(ctx, case, types, root_dir, out_spelled, lctx, res):
+    """`history_check` + correspondence: the complete iterations after the history are put into `res["history"]`; the model (stateless:
+    a traversal is a function of the tree) must give the same for every round - see the comparison loop in `run`."""
+    h = history_check(ctx, case, types, root_dir, out_spelled, lctx, res)
+    if h is not None and "error" not in res:
+        res["history"] = [h[1], h[2]]
+
+
+def history_check(ctx, case, types, root_dir, out_dir, lctx, first_res):
+    """The namespace model under *histories of calls* on ONE tree: a fresh tree whose generator-returning methods
+    (get_all_datatypes, get_all_namespaces, get_all_types, get_nested_namespaces, get_nested_types) are first iterated
+    partially and abandoned - at every node, in random order, possibly several times - and then iterated completely, twice.
+    Every complete iteration must yield every type / namespace below the node exactly once (independent predicate) and the root's
+    must equal what the untouched tree gave (`first_res`, the structure the model is compared with)."""
+    from nunavut import build_namespace_tree
+    rng = ctx.rng
+    try:
+        root = build_namespace_tree(types, root_dir, out_dir, lctx)
+    except ValueError:
+        return None
+    set_root_dir(root_dir)
+    folded = len({kstr(nskey(n)) for n in walk_nodes(root)}) != len(first_res.get("namespaces", []))
+    methods = ["get_all_datatypes", "get_all_namespaces", "get_all_types", "get_nested_namespaces", "get_nested_types"]
+    tks = [tkey(t) for t in types]
+    nodes = walk_nodes(root)
+    calls = [(n, m) for n in nodes for m in methods]
+    rng.shuffle(calls)
+    for n, m in calls[: 40]:                       # partial iterations: take k items, abandon the iterator
+        it = iter(getattr(n, m)())
+        for _ in range(rng.choice([0, 1, 1, 2, 3])):
+            try:
+                next(it)
+            except StopIteration:
+                break
+        if hasattr(it, "close") and rng.random() < 0.5:
+            it.close()
+        del it
+        ctx.count("history_partial_iterations")
+    rep = lambda **kw: dict(case, history="partial iterations of " + ", ".join(methods) + " at every node, then complete ones", **kw)  # noqa: E731
+    out = {}
+    for rnd in (1, 2):
+        for n in nodes:
+            k = nskey(n)
+            below = sorted(tstr(t) for t in tks if t[0][:len(k)] == k)
+            got = sorted(tstr(tkey(t)) for t, _ in n.get_all_datatypes())
+            got_all = sorted(tstr(tkey(x)) for x, _ in n.get_all_types() if not is_namespace(x))
+            own = sorted(tstr(tkey(t)) for t, _ in n.get_nested_types())
+            want_own = sorted(tstr(t) for t in tks if t[0] == k)
+            ctx.count("history_complete_iterations", 3)
+            if not folded and (got != below or got_all != below or own != want_own):
+                ctx.fail({"kind": "type-not-once-after-history"}, "after abandoned (partial) iterations of the tree's generators a complete iteration "
+                         "no longer yields every type below the namespace exactly once", rep(namespace=kstr(k), round=rnd, get_all_datatypes=got[:12],
+                                                                                             get_all_types=got_all[:12], get_nested_types=own[:12], expected=below[:12]))
+                return None
+        out[rnd] = {"datatypes": sorted([tstr(tkey(t)), parts_of(p)] for t, p in root.get_all_datatypes()),
+                    "namespaces": sorted(kstr(nskey(n)) for n, _ in root.get_all_namespaces()),
+                    "alltypes": sorted((["N", kstr(nskey(x))] if is_namespace(x) else ["T", tstr(tkey(x)), parts_of(p)]) for x, p in root.get_all_types())}
+    return out
+
+
 def snapshot(d):
     out = set()
     for r, dirs, files in os.walk(d):
@@ -605,6 +665,61 @@ def user_template_run(ctx, case, root, tdir):
             ctx.fail({"kind": "user-template-type-to-include-path"}, "type_to_include_path rendered by a user template is not the path relative to the output directory",
                      dict(case, type=tstr(tkey(t)), rendered=got, expected=want))
     ctx.count("real_runs_user_template")
+
+
+PY_FOREIGN_IMPORTS = ("numpy", "pydsdl", "nunavut_support", "__future__", "typing")
+
+
+def check_code_tokens(ctx, case, lang, root, language, types):
+    """The path formula pinned to the generated CODE (built-in templates, read right after a real run): the directories of the
+    output tree must be the namespace tokens the files themselves use.
+    C++: the `namespace X` blocks a header opens, outermost first, are the directory components of its path below the output
+    directory; the file's stem is declared in it.  Python: every `import a.b.c` of generated code names the package directory
+    `a/b/c` of a generated type (packages *are* directories); C: every `#include <...>`/`"..."` of a generated type's header that
+    is not a support header names the output path of a type (relative to the output directory)."""
+    import re
+    base = pathlib.PurePosixPath(root.get_support_output_folder().as_posix())
+    dts = list(root.get_all_datatypes())
+    rels = {}
+    for t, p in dts:
+        try:
+            rels[tkey(t)] = pathlib.PurePosixPath(pathlib.Path(p).as_posix()).relative_to(base)
+        except ValueError:
+            return
+    for t, p in dts:
+        k = tkey(t)
+        try:
+            text = pathlib.Path(p).read_text()
+        except OSError:
+            continue
+        dirs = list(rels[k].parts[:-1])
+        rep = dict(case, type=tstr(k), file=rels[k].as_posix())
+        if lang == "cpp":
+            opened = re.findall(r"^\s*namespace\s+([A-Za-z_]\w*)\s*(?:\{\s*)?$", text, re.M)
+            if opened[:len(dirs)] != dirs:
+                ctx.fail({"kind": "path-vs-code-namespace"}, "the directories of a generated C++ header are not the namespaces the header opens "
+                         "(the output tree does not consist of the stropped namespace components the code uses)",
+                         dict(rep, directories=dirs, namespaces_opened=opened[:len(dirs) + 2]))
+            stem = rels[k].name[: -len(language.extension)] if language.extension and rels[k].name.endswith(language.extension) else rels[k].name
+            if not re.search(r"\b(struct|class|namespace|using)\s+" + re.escape(stem) + r"\b", text):
+                ctx.fail({"kind": "path-vs-code-name"}, "the name a C++ header is stored under is not declared in it", dict(rep, stem=stem))
+            ctx.count("code_tokens_checked_cpp")
+        elif lang == "py":
+            pkgs = {".".join(r.parts[:-1]) for r in rels.values()}
+            for mod in re.findall(r"^import\s+([A-Za-z_][\w.]*)\s*$", text, re.M):
+                if mod.split(".")[0] in PY_FOREIGN_IMPORTS:
+                    continue
+                if mod.split(".")[0] == dirs[0] and mod not in pkgs and not any(q.startswith(mod + ".") for q in pkgs):
+                    ctx.fail({"kind": "path-vs-code-namespace"}, "generated Python imports a package that is not a directory of the output tree",
+                             dict(rep, imported=mod, packages=sorted(pkgs)[:12]))
+            ctx.count("code_tokens_checked_py")
+        elif lang == "c":
+            known = {r.as_posix() for r in rels.values()}
+            for inc in re.findall(r'^#include\s+[<"]([^>"]+)[>"]', text, re.M):
+                if inc.split("/")[0] == dirs[0] and inc not in known:
+                    ctx.fail({"kind": "path-vs-code-namespace"}, "a generated C header includes a path below the root namespace that is not the output path of a type",
+                             dict(rep, included=inc, outputs=sorted(known)[:12]))
+            ctx.count("code_tokens_checked_c")
 
 
 def check_operations(ctx, case, events, named_dir, how):
@@ -665,6 +780,8 @@ def real_run(ctx, case, sandbox, cwd, out_spelled, out_abs, types, root_dir, lct
             try:
                 g.generate_all(is_dryrun=False)
                 s.generate_all(is_dryrun=False)
+                if case.get("enable_stropping") is None:
+                    check_code_tokens(ctx, case, case["lang"], root, lctx.get_target_language(), types)
                 user_template_run(ctx, case, root, tdir)
             except ValueError:
                 raise
@@ -682,6 +799,29 @@ def real_run(ctx, case, sandbox, cwd, out_spelled, out_abs, types, root_dir, lct
         if aborted is None and files != announced:
             ctx.fail({"kind": "run-vs-dry-run"}, "the files a real run creates are not the paths the dry run announces",
                      dict(case, created=files[:40], announced=announced[:40]))
+        # ---- a history of runs on ONE fresh tree: generate_all(allow_overwrite=False) over the existing outputs fails on the first
+        #      file (PermissionError, the walk over the tree is abandoned half-way); after the type files are removed a retried
+        #      generate_all() must write every file again
+        if types and aborted is None:
+            root2 = build_namespace_tree(types, root_dir, out_spelled, lctx)
+            g2 = DSDLCodeGenerator(root2, templates_dir=tdir)
+            # (the expected files come from the FIRST tree's generator: nothing may touch root2 before the refused run)
+            want2 = sorted({os.path.realpath(os.path.abspath(p)) for p in g.generate_all(is_dryrun=True)})
+            refused = False
+            try:
+                g2.generate_all(is_dryrun=False, allow_overwrite=False)
+            except PermissionError:
+                refused = True
+            for f in want2:
+                if os.path.isfile(f):
+                    os.unlink(f)
+            g2.generate_all(is_dryrun=False)
+            missing = [f for f in want2 if not os.path.isfile(f)]
+            ctx.count("run_histories_refused_then_retried" if refused else "run_histories_not_refused")
+            if missing:
+                ctx.fail({"kind": "retry-after-failed-run-loses-files"}, "after a generate_all() that failed on its first file (allow_overwrite=False over "
+                         "existing outputs) a retried generate_all() on the same tree does not write every type's file",
+                         dict(case, missing=missing[:10], expected_files=len(want2), first_run_refused=refused))
         # ---- the same tree through a template that fails half way through one type
         if failing is not None and aborted is None:
             raised = None
@@ -829,6 +969,8 @@ def one_tree(ctx, pending, case, types, deps, root_dir, out_spelled, lctx, with_
     line = request(glue_fields("api", case["lang"], [], out_spelled, case.get("ext"), case.get("stem")),
                    language.enable_stropping, second_pass_order(types), table, [tkey(t) for t in types],
                    [tkey(t) for t in deps], *support_inputs(language))
+    if built is not None:
+        search_history(ctx, case, types, root_dir, out_spelled, lctx, res)
     pending.append((line, res, case, [tkey(t) for t in every]))
     return res, built
 
@@ -1523,9 +1665,9 @@ def run(ctx: common.Ctx):
             finally:
                 os.chdir(old)
             # a real run for some of the cases
-            if real_budget > 0 and ext not in EXT_INVALID and rng.random() < (0.5 if ctx.quick else 0.3):
+            if ext not in EXT_INVALID and (spec is not None or (real_budget > 0 and rng.random() < (0.5 if ctx.quick else 0.3))):
                 for r, types in zip(roots, read):
-                    if real_budget <= 0:
+                    if real_budget <= 0 and spec is None:
                         continue
                     real_budget -= 1
                     case = {"universe": uname, "root": r["name"], "lang": lang, "ext": ext, "stem": stem, "enable_stropping": enable,
@@ -1558,6 +1700,8 @@ def run(ctx: common.Ctx):
                 m["support_files"] = "Ebad-suffix"
             if res.get("support_files", 0) is None:
                 m["support_files"] = None
+            if "history" in res and "error" not in m:      # the model is stateless: every round = the traversal of the tree
+                m["history"] = [{k: m[k] for k in ("datatypes", "namespaces", "alltypes")}] * 2
             if m != res:
                 d = first_diff(m, res) or {}
                 ctx.disagree("nstree", dict(case, request=line, where=d.get("field"), at=d.get("at")),
